@@ -44,6 +44,13 @@ def emitted_expectations(case, o):
                     dp = next(p for n, p in s["ins"].items() if n != "__size__")
                     e = one(s["ins"]["__size__"], tag) + [i for t, i in by_port[dp]
                                                             if t.rsplit(".", 1)[0] == tag and i is not None]
+                elif k == "default":
+                    # a null primary value is replaced by the default token: the output was computed from both
+                    prim = s["ins"]["x"]
+                    pv = [v for (t, v) in o["ports"][prim]["toks"] if t == tag]
+                    e = one(prim, tag)
+                    if pv and pv[0] is None:
+                        e = e + [i for _, i in by_port.get(s["dport"], []) if i is not None]
                 elif k == "merge":
                     # the merged list of tag T was computed from the token tagged T of EVERY source port
                     e = [i for p in s["ins"].values() for i in one(p, tag)]
@@ -167,6 +174,10 @@ class C07(netlib.Guarded, Prop):
             cases.append(c)
         for _ in range({"quick": 40, "thorough": 200, "extended": 120}[tier]):
             c = netlib.gen_exec_net(rng, fail_p=0.3)
+            c["f"] = "prov"
+            cases.append(c)
+        for _ in range({"quick": 6, "thorough": 30, "extended": 20}[tier]):
+            c = netlib.gen_default_net(rng)
             c["f"] = "prov"
             cases.append(c)
         # executions WITH recovery: the generator of C16 (pipelines / scatter-gather / diamonds of Schedule, Transfer,
